@@ -52,7 +52,7 @@ func setupStorage(dbdir string, w window) {
 
 type FObs struct {
 	Codes []int    `json:"codes"`
-	Kind  string   `json:"kind,omitempty"` // text | names | num
+	Kind  string   `json:"kind,omitempty"` // text | names | num | retr (num = announced size)
 	Text  hx.B     `json:"text,omitempty"`
 	Names []string `json:"names,omitempty"`
 	Num   int64    `json:"num,omitempty"`
@@ -121,7 +121,7 @@ func has(codes []int, c int) bool {
 }
 
 // a command with its own active-mode data connection
-func (cl *client) transfer(line string, upload []byte, download bool) ([]int, []byte, error) {
+func (cl *client) transfer(line string, upload []byte, download bool) ([]int, string, []byte, error) {
 	ln, err := net.Listen("tcp", "127.0.0.1:0")
 	if err != nil {
 		hx.Fatal("listen: %v", err)
@@ -130,15 +130,15 @@ func (cl *client) transfer(line string, upload []byte, download bool) ([]int, []
 	port := ln.Addr().(*net.TCPAddr).Port
 	codes, _, err := cl.cmd(fmt.Sprintf("PORT 127,0,0,1,%d,%d", port/256, port%256))
 	if err != nil {
-		return nil, nil, err
+		return nil, "", nil, err
 	}
 	if !has(codes, 200) {
-		return nil, nil, fmt.Errorf("PORT refused: %v", codes)
+		return nil, "", nil, fmt.Errorf("PORT refused: %v", codes)
 	}
 	ln.(*net.TCPListener).SetDeadline(time.Now().Add(5 * time.Second))
 	dc, err := ln.Accept()
 	if err != nil {
-		return nil, nil, fmt.Errorf("no data connection: %v", err)
+		return nil, "", nil, fmt.Errorf("no data connection: %v", err)
 	}
 	defer dc.Close()
 	var got []byte
@@ -153,9 +153,10 @@ func (cl *client) transfer(line string, upload []byte, download bool) ([]int, []
 		dc.Write(upload)
 		dc.(*net.TCPConn).CloseWrite()
 	}
-	codes, _, err = cl.cmd(line)
+	var text string
+	codes, text, err = cl.cmd(line)
 	if err != nil {
-		return codes, nil, err
+		return codes, text, nil, err
 	}
 	if download {
 		if has(codes, 226) {
@@ -165,7 +166,7 @@ func (cl *client) transfer(line string, upload []byte, download bool) ([]int, []
 		}
 		wg.Wait()
 	}
-	return codes, got, nil
+	return codes, text, got, nil
 }
 
 func listNames(data []byte, detailed bool) []string {
@@ -242,9 +243,9 @@ func runFtp(w window, ops []Op) (ob FtpObs, crash string) {
 		case "REST":
 			fo.Codes, text, err = cl.cmd(fmt.Sprintf("REST %d", o.Z))
 		case "STOR":
-			fo.Codes, _, err = cl.transfer(line, o.Data, false)
+			fo.Codes, _, _, err = cl.transfer(line, o.Data, false)
 		case "RETR", "LIST", "NLST":
-			fo.Codes, data, err = cl.transfer(line, nil, true)
+			fo.Codes, text, data, err = cl.transfer(line, nil, true)
 		default:
 			fo.Codes, text, err = cl.cmd(line)
 		}
@@ -256,6 +257,13 @@ func runFtp(w window, ops []Op) (ob FtpObs, crash string) {
 			fo.Kind, fo.Text = "text", hx.B(text)
 		case "RETR":
 			fo.Kind, fo.Text = "text", hx.B(data)
+			// "150 Data transfer starting N bytes": the size announced to the client
+			var n int64
+			if has(fo.Codes, 150) {
+				if _, e := fmt.Sscanf(text, "Data transfer starting %d bytes", &n); e == nil {
+					fo.Kind, fo.Num = "retr", n
+				}
+			}
 		case "LIST", "NLST":
 			fo.Kind, fo.Names = "names", listNames(data, o.V == "LIST")
 		case "SIZE":
@@ -289,8 +297,8 @@ func runFtp(w window, ops []Op) (ob FtpObs, crash string) {
 // ---- child process: commands that may kill the process ----
 
 type childReq struct {
-	Base string `json:"base"`
-	DB   string `json:"db"`
+	Top string `json:"top"`
+	DB  string `json:"db"`
 	Ops  []Op   `json:"ops"`
 }
 type childRes struct {
@@ -305,7 +313,7 @@ func childMain() {
 	}
 	// the recursion is unbounded; a smaller stack limit only makes the end come sooner
 	debug.SetMaxStack(32 << 20)
-	w := window{base: rq.Base, root: filepath.Join(rq.Base, "ftp", "root")}
+	w := newWindow(rq.Top)
 	setupStorage(rq.DB, w)
 	ob, crash := runFtp(w, rq.Ops)
 	json.NewEncoder(os.Stdout).Encode(childRes{Obs: ob, Crash: crash})
@@ -313,9 +321,10 @@ func childMain() {
 
 // runInChild: crash != "" when the child died or reported a failure
 func runInChild(out string, ops []Op) (FtpObs, string) {
-	rq := childReq{Base: filepath.Join(out, "c11child", "win"), DB: filepath.Join(out, "c11child", "db"), Ops: ops}
+	cw := newWindow(filepath.Join(out, "c11child"))
+	rq := childReq{Top: filepath.Join(out, "c11child"), DB: filepath.Join(out, "c11child", "db"), Ops: ops}
 	os.RemoveAll(filepath.Join(out, "c11child"))
-	os.MkdirAll(filepath.Join(out, "c11child", "wd"), 0o755)
+	os.MkdirAll(cw.wd, 0o755)
 	b, _ := json.Marshal(rq)
 	ctx, cancel := context.WithTimeout(context.Background(), 120*time.Second)
 	defer cancel()
@@ -325,7 +334,7 @@ func runInChild(out string, ops []Op) (FtpObs, string) {
 	}
 	cmd := exec.CommandContext(ctx, self)
 	cmd.Env = append(os.Environ(), "C11_CHILD="+string(b))
-	cmd.Dir = filepath.Join(out, "c11child", "wd")
+	cmd.Dir = cw.wd
 	var stderr strings.Builder
 	cmd.Stderr = &tailWriter{sb: &stderr, max: 4000}
 	stdout, err := cmd.Output()
@@ -372,10 +381,15 @@ func (t *tailWriter) Write(p []byte) (int, error) {
 
 var pathVerbs = []string{"MKD", "RMD", "DELE", "RNFR", "RNTO", "STOR", "RETR", "LIST", "NLST", "MDTM", "SIZE"}
 
+// set by runFtpPart: the virtual path that is also the absolute name of a host file
+var absVirtual string
+
 func genFtpPath(r *hx.Rand, all []string) string {
 	for {
 		var p string
-		switch r.Intn(10) {
+		switch r.Intn(11) {
+		case 10:
+			p = []string{"../secret.txt", "a/../../secret.txt", "../../secret.txt", "secret.txt", "a/../../../secret.txt", "../SENTINEL-d/a", "./../b", absVirtual, absVirtual, "b", "a/b", "../b"}[r.Intn(12)]
 		case 0, 1, 2, 3:
 			p = all[r.Intn(minInt(len(all), 320))] // up to 3 components
 		case 4, 5, 6:
@@ -407,7 +421,7 @@ func genFtpOps(r *hx.Rand, all []string, maxLen int, cwdOK bool) []Op {
 		case k == 1:
 			ops = append(ops, Op{V: "APPE"})
 		case k == 2:
-			ops = append(ops, Op{V: "REST", Z: int64(r.PickInt([]int{0, -3, -10, -100, 4, 100, -19, -20}))})
+			ops = append(ops, Op{V: "REST", Z: int64(r.PickInt([]int{0, -3, -6, -10, -100, 4, 100, -19, -20}))})
 		case k <= 5 && cwdOK:
 			if r.Chance(1, 4) {
 				ops = append(ops, Op{V: "CDUP"})
@@ -417,6 +431,18 @@ func genFtpOps(r *hx.Rand, all []string, maxLen int, cwdOK bool) []Op {
 		default:
 			v := pathVerbs[r.Intn(len(pathVerbs))]
 			o := Op{V: v, P: hx.B(genFtpPath(r, all))}
+			if v == "STOR" && r.Chance(1, 3) {
+				// arm append mode first (APPE only sets the flag; REST sets it too)
+				if r.Bool() {
+					ops = append(ops, Op{V: "APPE"})
+				} else {
+					ops = append(ops, Op{V: "REST", Z: 0})
+				}
+			}
+			if v == "RETR" && r.Chance(1, 2) {
+				// RETR seeks from the end of the file: without a negative REST it sends nothing
+				ops = append(ops, Op{V: "REST", Z: int64(r.PickInt([]int{-6, -100, -4}))})
+			}
 			if v == "STOR" {
 				o.Data = hx.B(fmt.Sprintf("up-%d-", r.Intn(1000)) + strings.Repeat("x", r.PickInt([]int{0, 1, 10, 3000})))
 			}
@@ -442,6 +468,15 @@ func ftpCorpus() [][]Op {
 		{P("RNFR", "a"), P("RNTO", "b"), P("RNFR", "b"), P("RNTO", "a"), P("RNFR", "a"), P("RNTO", "c"), P("NLST", "c"), P("RNFR", "b"), P("RNTO", "c/b"), P("RETR", "c/b")},
 		{{V: "REST", Z: -3}, P("RETR", "b"), {V: "REST", Z: 5}, P("RETR", "b"), {V: "REST", Z: -100}, P("RETR", "b"), P("RETR", "a"), P("RETR", "nope")},
 		{{V: "APPE"}, S("b", "-more"), S("b", "new"), {V: "REST", Z: 0}, S("a/b", "+"), S("a", "dir"), S("x/y", "noparent"), P("SIZE", "b"), P("SIZE", "a"), P("SIZE", "zz")},
+		// an appending STOR must reach the file inside the root, not the host file of the same
+		// absolute name nor the one of that name relative to the server process
+		{{V: "APPE"}, S(absVirtual, "-appended"), {V: "REST", Z: 0}, S(absVirtual, "-again"), {V: "REST", Z: -100}, P("RETR", absVirtual)},
+		{{V: "APPE"}, S("b", "-appended"), {V: "APPE"}, S("a/b", "-appended"), {V: "APPE"}, S("../b", "-appended"), {V: "APPE"}, S("./a/../b", "-appended")},
+		{{V: "REST", Z: 0}, S("/b", "-appended"), {V: "APPE"}, S("/a/b", "-appended"), {V: "APPE"}, S("../../a/b", "-appended")},
+		// downloads, sizes and times of names that exist only above the root
+		{{V: "REST", Z: -6}, P("RETR", "../secret.txt"), {V: "REST", Z: -6}, P("RETR", "a/../../secret.txt"), P("RETR", "../../secret.txt"), P("SIZE", "../secret.txt"), P("MDTM", "../secret.txt")},
+		{{V: "REST", Z: -100}, P("RETR", "../SENTINEL-d/a"), {V: "REST", Z: -6}, P("RETR", "secret.txt"), P("SIZE", "a/../../secret.txt"), P("MDTM", "a/../../secret.txt"), P("SIZE", "../../secret.txt"), P("NLST", "../SENTINEL-d")},
+		{{V: "REST", Z: -2000}, P("RETR", "../../secret.txt"), {V: "REST", Z: -6}, P("RETR", "a/../../../secret.txt"), {V: "REST", Z: -6}, P("RETR", "./../b")},
 		{P("MKD", ""), P("LIST", ""), P("NLST", "a/../a/./a//"), P("MKD", "a/a/../../c d"), P("NLST", "/"), {V: "PWD"}},
 	}
 }
@@ -489,6 +524,8 @@ func coqFtp(id int, ops []Op, ob FtpObs) string {
 			pay = "PNames " + hx.CoqList(ns, "bytes")
 		case "num":
 			pay = "PNum " + hx.CoqZ(f.Num)
+		case "retr":
+			pay = "PRetr " + hx.CoqZ(f.Num) + " " + hx.CoqBytes(f.Text)
 		}
 		rs = append(rs, fmt.Sprintf("(%s, %s)", hx.CoqList(codes, "N"), pay))
 	}
@@ -497,6 +534,7 @@ func coqFtp(id int, ops []Op, ob FtpObs) string {
 }
 
 func runFtpPart(o hx.Opts, r *hx.Rand, w window, out, header string, all []string, replay *Input) {
+	absVirtual = w.absFile()
 	quick := o.Tier == "quick"
 	dist := map[string]int{}
 	var cases []hx.Case
